@@ -49,7 +49,7 @@ package main
 //	rs rd rr                 sent on results, dropped on cancellation, read from Results()
 //	pa:<v> pb:<n>            every PendingCount() call: processed count read, result
 //	pc:<n> pcq:<n>           result of the scenario's own `pc` (pcq: read while the pipeline is at rest)
-//	gate open rel drain_begin drain_ok drain_err drain_nopoll stop_begin stop_ok stop_noop
+//	gate open rel drain_begin drain_ok drain_err drain_nopoll stop_begin stop_hung stop_ok stop_noop
 //	settled unsettled leak:<n>
 //
 // aq, ab, ad and pa are logged with the apply stage's mutex held (exact order). The other
@@ -607,15 +607,24 @@ func (r *pipeRec) stable() bool {
 	if r.subsInFlight > 0 || r.inDrain {
 		return false
 	}
-	if !r.resGate.isOpen() || !r.errGate.isOpen() {
-		return false // a paused reader may block the runner / workers invisibly
+	if !r.errGate.isOpen() {
+		return false // a paused errors reader may block workers invisibly
 	}
-	if !r.stopped && r.rsSent != r.rrRead {
+	// `rs` is logged before the send on the results channel (capacity buf): with the reader
+	// paused, more than buf announced-but-unread results mean the apply goroutine is blocked
+	// in that send
+	fwdBlocked := false
+	if !r.resGate.isOpen() {
+		if r.rsSent-r.rrRead <= r.sc.buf {
+			return false
+		}
+		fwdBlocked = true
+	} else if !r.stopped && r.rsSent != r.rrRead {
 		return false // a result is still on its way to the reader
 	}
 	gateOpen := r.gate.isOpen()
 	decBusy, valBusy := 0, 0
-	runnerBusy := false
+	runnerBusy := fwdBlocked
 	for b, l := range r.loc {
 		held := r.heldNow[b] && !r.released[r.sc.blocks[b].group].Load()
 		switch l {
@@ -685,6 +694,9 @@ func (r *pipeRec) stable() bool {
 // lag the operations by a few instructions). The deadline is generous: "unsettled"
 // is reported as a stalled pipeline.
 func (r *pipeRec) settle(timeout time.Duration) bool {
+	if pipeUnsettledSeen.Load() {
+		timeout = 3 * time.Second // the run's verdict is settled already
+	}
 	deadline := time.Now().Add(timeout)
 	for {
 		if r.stable() {
@@ -694,6 +706,7 @@ func (r *pipeRec) settle(timeout time.Duration) bool {
 			}
 		}
 		if time.Now().After(deadline) {
+			pipeUnsettledSeen.Store(true)
 			return false
 		}
 		time.Sleep(200 * time.Microsecond)
@@ -749,6 +762,18 @@ func pipeLeak() int {
 }
 
 const pipeDeadline = 60 * time.Second
+
+// once a Stop has been seen to hang the verdict of the run is settled; later scenarios
+// do not wait the full deadline again
+var pipeStopHungSeen atomic.Bool
+var pipeUnsettledSeen atomic.Bool
+
+func pipeStopWait() time.Duration {
+	if pipeStopHungSeen.Load() {
+		return 3 * time.Second
+	}
+	return pipeDeadline
+}
 
 // runPipe executes one scenario against the real pipeline.
 func runPipe(op string) string {
@@ -855,7 +880,18 @@ func runPipe(op string) string {
 			r.stopped = true
 			r.events = append(r.events, "stop_begin")
 			r.mu.Unlock()
-			_ = p.Stop()
+			ret := make(chan struct{})
+			go func() { _ = p.Stop(); close(ret) }()
+			select {
+			case <-ret:
+			case <-time.After(pipeStopWait()):
+				// Stop does not return while a stream is unread: report it, then unblock it
+				pipeStopHungSeen.Store(true)
+				r.ev("stop_hung")
+				r.resGate.open()
+				r.errGate.open()
+				<-ret
+			}
 			r.ev("stop_ok")
 			close(stopDone)
 		})
